@@ -54,78 +54,111 @@ Print Assumptions C20_refuted.
 
 (* ---- which object an in-place write hits (Model/AccessOwn.v) ----
    trace_own refines trace by the sessions a request holds PRIVATELY (a lookup the handler follows with a
-   copy; cp says which).  The refined summaries obey the same discipline, so the two theorems above hold of
+   copy; cp says which; deep says whether the copy clones the map-valued members too - the tree with fix
+   e2b7ce4 does).  The refined summaries obey the same discipline, so the two theorems above hold of
    them verbatim; with a handler that copies nothing trace_own IS trace. *)
-Theorem own_accesses_disciplined : forall has cp A (p : prog A) priv s,
-  Forall (fun a => disciplined a = true) (trace_own has cp priv p s).
+Theorem own_accesses_disciplined : forall has deep cp A (p : prog A) priv s,
+  Forall (fun a => disciplined a = true) (trace_own has deep cp priv p s).
 Proof. intros. apply trace_own_disc. Qed.
 Print Assumptions own_accesses_disciplined.
 
-Theorem own_object_races_characterised : forall has cp cq A B (p : prog A) (q : prog B) pp pq s1 s2 a b,
-  In a (trace_own has cp pp p s1) -> In b (trace_own has cq pq q s2) ->
+Theorem own_object_races_characterised : forall has d1 d2 cp cq A B (p : prog A) (q : prog B) pp pq s1 s2 a b,
+  In a (trace_own has d1 cp pp p s1) -> In b (trace_own has d2 cq pq q s2) ->
   (is_map (ac_loc a) = true -> races a b = false) /\
   (races a b = true <->
    exists k i f, ac_loc a = LField k i f /\ ac_loc b = LField k i f /\
                  (unsync_write a = true \/ unsync_write b = true)).
 Proof.
-  intros has cp cq A B p q pp pq s1 s2 a b Ha Hb.
-  pose proof (proj1 (Forall_forall _ _) (trace_own_disc has cp p pp s1) a Ha) as Da.
-  pose proof (proj1 (Forall_forall _ _) (trace_own_disc has cq q pq s2) b Hb) as Db.
+  intros has d1 d2 cp cq A B p q pp pq s1 s2 a b Ha Hb.
+  pose proof (proj1 (Forall_forall _ _) (trace_own_disc has d1 cp p pp s1) a Ha) as Da.
+  pose proof (proj1 (Forall_forall _ _) (trace_own_disc has d2 cq q pq s2) b Hb) as Db.
   split; [intros M; apply maps_no_race; assumption|apply object_races; assumption].
 Qed.
 Print Assumptions own_object_races_characterised.
 
-Theorem trace_own_without_copies : forall has A (p : prog A) s, trace_own has nothing_copied [] p s = trace has p s.
+Theorem trace_own_without_copies : forall has deep A (p : prog A) s, trace_own has deep nothing_copied [] p s = trace has p s.
 Proof. intros. apply trace_own_nothing. Qed.
 Print Assumptions trace_own_without_copies.
 
-(* first_request_scalars_private - for EVERY world (profile, options, static clients), request (with or without
-   request_uri, any policy verdict), clock, set of jwks_uri clients and store in which the id a new session would get
-   is not yet taken (ids are minted per operation: Proofs/Fresh.v): the first request of an authorization
-   (GET/POST /authorize, Authorize.init_auth) performs NO unsynchronised write to a scalar member of a stored
-   session.  It works on a new session (stored only by its final Save) or on a copy of the pushed one; the only
-   members of shared memory it writes outside a lock are the maps the shallow copy shares (K20a, below). *)
-Theorem first_request_scalars_private : forall has w n now r st,
+(* first_request_writes_no_shared_session - for EVERY world (profile, options, static clients), request (with or
+   without request_uri, any policy verdict), clock, set of jwks_uri clients and store in which the id a new session
+   would get is not yet taken (ids are minted per operation: Proofs/Fresh.v): the first request of an authorization
+   (GET/POST /authorize, Authorize.init_auth) performs NO unsynchronised write to ANY member - scalar or map - of a
+   session in shared memory.  It works on a new session (stored only by its final Save) or on a copy of the pushed
+   one whose maps are cloned (authnSessionWithPAR after fix e2b7ce4, defect D24). *)
+Theorem first_request_writes_no_shared_session : forall has w n now r st,
   (forall x, In x (st_asess st) -> a_id x <> mint n KSessId) ->
-  scalar_session_writes (trace_own has par_copied [] (init_auth w n now r) st) = [].
+  session_writes (trace_own has true par_copied [] (init_auth w n now r) st) = [].
+Proof. intros. apply first_request_writes_nothing_lemma. apply not_stored_of_fresh. assumption. Qed.
+Print Assumptions first_request_writes_no_shared_session.
+
+(* whatever the copy does with the maps (deep or shallow), no SCALAR member is written *)
+Theorem first_request_scalars_private : forall has deep w n now r st,
+  (forall x, In x (st_asess st) -> a_id x <> mint n KSessId) ->
+  scalar_session_writes (trace_own has deep par_copied [] (init_auth w n now r) st) = [].
 Proof. intros. apply first_request_scalars_private_lemma. apply not_stored_of_fresh. assumption. Qed.
 Print Assumptions first_request_scalars_private.
 
-(* the hypothesis is satisfiable and the conclusion not vacuous: the FAPI 2.0 scenario below - the id of request 1
-   is free in the store the push left, the request does write shared memory (the nonce claim map) *)
+(* the hypothesis is satisfiable and the statement not vacuous: the FAPI 2.0 scenario below - the id of request 1 is
+   free in the store the push left, and the request does change its session (a handler that copied nothing would
+   write the stored one) *)
 Example first_request_applies :
   let su := setup_of (own_scn PFapi2 "code" own_ok) in
   stored (mint (su_base su) KSessId) (su_store su) = false /\
-  session_writes (own_trace par_copied (own_scn PFapi2 "code" own_ok)) <> [].
+  session_writes (own_trace true nothing_copied (own_scn PFapi2 "code" own_ok)) <> [].
 Proof. vm_compute. split; [reflexivity|discriminate]. Qed.
 
-(* pushed_session_scalars_private: the FIRST request of an authorization that presents a pushed request_uri
-   (internal/authorize.initAuth -> authnSessionWithPAR, which continues with a copy of the stored session),
+(* pushed_session_maps_private: the FIRST request of an authorization that presents a pushed request_uri
+   (internal/authorize.initAuth -> authnSessionWithPAR, which continues with a DEEP copy of the stored session),
    for every profile x response type the profiles admit (own_cells: OpenID code / code id_token / id_token /
    token / code token, FAPI 1.0 code id_token, FAPI 2.0 code) and every verdict of the policy (success, login
-   page, failure): the request is served (page or redirect) and NO scalar member of a stored session is
-   written outside a lock - in particular the summary does not race with the index scans of other requests;
-   what is written are the two map-valued members the shallow copy shares (K20a below). *)
-Theorem pushed_session_scalars_private : forall prof rt pol, In (prof, rt) own_cells -> In pol own_pols ->
+   page, failure): the request is served (page or redirect), NO member of a stored / shared session - scalar or
+   map - is written outside a lock, the summary does not race with the index scans of other requests, and TWO
+   such requests (the same request_uri, inside the K3 window) do not race with each other. *)
+Theorem pushed_session_maps_private : forall prof rt pol, In (prof, rt) own_cells -> In pol own_pols ->
   let s := own_scn prof rt pol in
   own_live s = true /\
-  scalar_session_writes (own_trace par_copied s) = [] /\
-  (forall site f, In (site, f) (session_writes (own_trace par_copied s)) -> In site map_sites /\ is_map_member f = true) /\
-  some_race (own_trace par_copied s) (other_scan s) = false.
+  session_writes (own_trace true par_copied s) = [] /\
+  some_race (own_trace true par_copied s) (other_scan s) = false /\
+  some_race (own_trace true par_copied s) (own_trace true par_copied s) = false.
 Proof.
   intros prof rt pol Hc Hp s.
   pose proof (for_cells_spec _ own_cells_live _ _ _ Hc Hp) as H1.
-  pose proof (for_cells_spec _ own_scalar_private _ _ _ Hc Hp) as H2.
-  pose proof (for_cells_spec _ own_map_writes _ _ _ Hc Hp) as H3.
-  pose proof (for_cells_spec _ copy_no_race_with_scans _ _ _ Hc Hp) as H4.
+  pose proof (for_cells_spec _ own_private _ _ _ Hc Hp) as H2.
+  pose proof (for_cells_spec _ copy_no_race_with_scans _ _ _ Hc Hp) as H3.
+  pose proof (for_cells_spec _ deep_copy_no_self_race _ _ _ Hc Hp) as H4.
   cbv beta in H2, H3, H4. fold s in H1, H2, H3, H4.
-  split; [exact H1|]. split; [destruct (scalar_session_writes _); [reflexivity|discriminate]|].
-  split; [|apply negb_true_iff; exact H4].
-  intros site f Hin. rewrite forallb_forall in H3. specialize (H3 _ Hin). cbn [fst snd] in H3.
-  apply andb_true_iff in H3 as [A B]. split; [|exact B].
-  apply mem_In. exact A.
+  split; [exact H1|]. split; [destruct (session_writes _); [reflexivity|discriminate]|].
+  split; apply negb_true_iff; assumption.
 Qed.
-Print Assumptions pushed_session_scalars_private.
+Print Assumptions pushed_session_maps_private.
+
+(* pushed_session_without_map_copy_races (the code BEFORE fix e2b7ce4, defect D24; a regression is predicted as a
+   race): the same requests served by a handler whose copy is shallow (deep = false: sessionCopy := *session
+   alone) write no scalar member, but the maps the copy shares with the stored session: every such request writes
+   the nonce claim into AdditionalIDTokenClaims (site SetIDTokenClaim[initAuth]; the policy: StoreParameter[initAuth]),
+   nothing else, and two requests presenting the same request_uri race with each other (write/write on a Go map).
+   The dynamic check names these writes <site>[initAuth]; they are not known findings any more. *)
+Theorem pushed_session_without_map_copy_races : forall prof rt pol, In (prof, rt) own_cells -> In pol own_pols ->
+  let s := own_scn prof rt pol in
+  scalar_session_writes (own_trace false par_copied s) = [] /\
+  (forall site f, In (site, f) (session_writes (own_trace false par_copied s)) -> In site map_sites /\ is_map_member f = true) /\
+  In (gapi ++ "SetIDTokenClaim[initAuth]")%string (map fst (session_writes (own_trace false par_copied s))) /\
+  some_race (own_trace false par_copied s) (own_trace false par_copied s) = true.
+Proof.
+  intros prof rt pol Hc Hp s.
+  pose proof (for_cells_spec _ shallow_scalar_private _ _ _ Hc Hp) as H2.
+  pose proof (for_cells_spec _ shallow_map_writes _ _ _ Hc Hp) as H3.
+  pose proof (for_cells_spec _ shallow_nonce_written _ _ _ Hc Hp) as A.
+  pose proof (for_cells_spec _ shallow_copy_races _ _ _ Hc Hp) as B.
+  cbv beta in H2, H3, A, B. fold s in H2, H3, A, B.
+  split; [destruct (scalar_session_writes _); [reflexivity|discriminate]|].
+  split; [|split; [|exact B]].
+  - intros site f Hin. rewrite forallb_forall in H3. specialize (H3 _ Hin). cbn [fst snd] in H3.
+    apply andb_true_iff in H3 as [X Y]. split; [apply mem_In; exact X|exact Y].
+  - apply existsb_exists in A as [x [Hx E]]. apply seqb_eq in E. rewrite <- E. apply in_map. exact Hx.
+Qed.
+Print Assumptions pushed_session_without_map_copy_races.
 
 (* pushed_session_without_copy_races: the same requests served by a handler that keeps the stored session
    (cp = nothing_copied; under a FAPI profile: returning the looked-up session before the copy is made):
@@ -135,8 +168,8 @@ Print Assumptions pushed_session_scalars_private.
    <site>[initAuth]; none of them is a known finding. *)
 Theorem pushed_session_without_copy_races : forall prof rt pol, In (prof, rt) own_cells -> In pol own_pols ->
   let s := own_scn prof rt pol in
-  In "internal/authorize.initAuthnSession" (map fst (scalar_session_writes (own_trace nothing_copied s))) /\
-  some_race (own_trace nothing_copied s) (other_scan s) = true.
+  In "internal/authorize.initAuthnSession" (map fst (scalar_session_writes (own_trace true nothing_copied s))) /\
+  some_race (own_trace true nothing_copied s) (other_scan s) = true.
 Proof.
   intros prof rt pol Hc Hp s.
   pose proof (for_cells_spec _ no_copy_writes_stored _ _ _ Hc Hp) as H. cbv beta in H. fold s in H.
@@ -144,22 +177,6 @@ Proof.
   apply existsb_exists in A as [x [Hx E]]. apply seqb_eq in E. rewrite <- E. apply in_map. exact Hx.
 Qed.
 Print Assumptions pushed_session_without_copy_races.
-
-(* pushed_session_copy_is_shallow (KNOWN FINDING K20a - the property fails here): every such request writes the
-   nonce claim into the AdditionalIDTokenClaims map the copy shares with the stored session, so two requests
-   presenting the same request_uri race with each other (write/write on a Go map). *)
-Theorem pushed_session_copy_is_shallow : forall prof rt pol, In (prof, rt) own_cells -> In pol own_pols ->
-  let s := own_scn prof rt pol in
-  In (gapi ++ "SetIDTokenClaim[initAuth]")%string (map fst (session_writes (own_trace par_copied s))) /\
-  some_race (own_trace par_copied s) (own_trace par_copied s) = true.
-Proof.
-  intros prof rt pol Hc Hp s.
-  pose proof (for_cells_spec _ own_nonce_written _ _ _ Hc Hp) as A.
-  pose proof (for_cells_spec _ shallow_copy_races _ _ _ Hc Hp) as B. cbv beta in A, B. fold s in A, B.
-  split; [|exact B].
-  apply existsb_exists in A as [x [Hx E]]. apply seqb_eq in E. rewrite <- E. apply in_map. exact Hx.
-Qed.
-Print Assumptions pushed_session_copy_is_shallow.
 
 (* static_client_never_written: the client object held by the configuration (WithStaticClient) is never
    written by client authentication, with or without a jwks_uri (Context.Client hands out a copy when there is
@@ -201,9 +218,9 @@ Example predicted_examples :
   predicted_signature "pkg/goidc.(*AuthnSession).SetUserID[initAuth]:write" "pkg/goidc.(*AuthnSession).SetUserID[initAuth]:write" = false /\
   predicted_signature "internal/oidc.*:read" "pkg/goidc.(*Client).FetchPublicJWKS[static-client]:write" = false /\
   predicted_signature "pkg/goidc.(*Client).FetchPublicJWKS[static-client]:write" "pkg/goidc.(*Client).FetchPublicJWKS[static-client]:write" = false /\
-  (* ... except the two map members the shallow copy of the pushed session shares (K20a) *)
-  predicted_signature "pkg/goidc.(*AuthnSession).SetIDTokenClaim[initAuth]:write" "pkg/goidc.(*AuthnSession).SetIDTokenClaim[initAuth]:write" = true /\
-  predicted_signature "pkg/goidc.(*AuthnSession).*:read" "pkg/goidc.(*AuthnSession).StoreParameter[initAuth]:write" = true /\
+  (* ... nor, since fix e2b7ce4 (D24: the copy of the pushed session clones its maps), the writers of those maps *)
+  predicted_signature "pkg/goidc.(*AuthnSession).SetIDTokenClaim[initAuth]:write" "pkg/goidc.(*AuthnSession).SetIDTokenClaim[initAuth]:write" = false /\
+  predicted_signature "pkg/goidc.(*AuthnSession).*:read" "pkg/goidc.(*AuthnSession).StoreParameter[initAuth]:write" = false /\
   (* the code's bytes, published by the callback's in-place write; the reader in internal/oidc of a session being saved *)
   predicted_signature "internal/authorize.*:read" "internal/strutil.Random:write" = true /\
   predicted_signature "internal/authorize.authorizeAuthnSession:write" "internal/oidc.*:read" = true.
